@@ -660,6 +660,51 @@ def rule_hyper_count(ctx):
     return r
 
 
+# ----------------------------------------------------------------- network sums
+def rule_sum_exponents(ctx):
+    r = RuleResult(
+        "sum-exponents",
+        "a sum of two networks is not a product: 10**p·A + 10**q·B cannot be represented by combining the site tensors and "
+        "keeping one exponent, so every routine that sums two networks site by site (direct product of corresponding "
+        "tensors) must absorb or otherwise account for the exponent of *both* operands (read .exponent / call "
+        "distribute_exponent on each) before combining",
+    )
+    n = 0
+    for f in ctx.prog.all_functions(nested=False):
+        if f.is_alias or isinstance(f.node, ast.Lambda) or not f.module.name.startswith("quimb.tensor") or f.module.name.startswith("quimb.tensor.tensor_builder"):
+            continue
+        dps = [c for c in ast.walk(f.node) if isinstance(c, ast.Call) and (dotted(c.func) or "").split(".")[-1] in ("direct_product", "direct_product_", "tensor_direct_product")]
+        nets = [p_ for p_ in f.posparams if p_ != "self"][:2]
+        if not dps or len(nets) < 2 or not all(p_.lower().startswith("tn") for p_ in nets):
+            continue
+        n += 1
+        # names aliasing each operand: the parameter and locals assigned from it (copy / conditional copy / rebinding)
+        alias = {p_: {p_} for p_ in nets}
+        for a in ast.walk(f.node):
+            if isinstance(a, ast.Assign) and len(a.targets) == 1 and isinstance(a.targets[0], ast.Name):
+                for p_ in nets:
+                    roots = {x.id for x in ast.walk(a.value) if isinstance(x, ast.Name)}
+                    if roots & alias[p_] and not (roots & set().union(*(alias[q] for q in nets if q != p_))):
+                        v = a.value
+                        if isinstance(v, (ast.IfExp, ast.Name)) or (isinstance(v, ast.Call) and isinstance(v.func, ast.Attribute) and v.func.attr == "copy"):
+                            alias[p_].add(a.targets[0].id)
+        missing = []
+        for p_ in nets:
+            handled = any(
+                (isinstance(x, ast.Attribute) and x.attr == "exponent" and isinstance(x.value, ast.Name) and x.value.id in alias[p_])
+                or (isinstance(x, ast.Call) and isinstance(x.func, ast.Attribute) and x.func.attr in ("distribute_exponent", "equalize_norms_") and isinstance(x.func.value, ast.Name) and x.func.value.id in alias[p_])
+                for x in ast.walk(f.node))
+            if not handled:
+                missing.append(p_)
+        if missing:
+            r.bad(Finding("sum-exponents", f.qualname, f"sums the site tensors of `{nets[0]}` and `{nets[1]}` but never looks at the exponent of {missing}: "
+                          f"with {missing[0]}.exponent = p the result is not 10**p·{missing[0]} ± the other operand", where=f"{f.module.relpath}:{f.lineno}", operand=",".join(missing)))
+        else:
+            r.ok(f.qualname, sample={"routine": f.qualname, "operands": nets, "exponents": "both absorbed before combining"})
+    r.floor(n, 2, "site-wise network sums")
+    return r
+
+
 # ------------------------------------------------------------- linop dtype
 def rule_linop_dtype(ctx):
     r = RuleResult(
